@@ -206,7 +206,17 @@ TIER = "quick"
 
 def launch(cdir, job, idx, subseed, budget_ms, outdir, replay=None, max_runs=0):
     env = go_env()
-    job = dict(job, cfg=dict(job.get("cfg", {}), tier=TIER))
+    cfg = dict(job.get("cfg", {}), tier=TIER)
+    if TIER == "thorough":
+        cfg.update(job.get("thorough_cfg", {}))
+        if job.get("vary") and not replay:
+            cfg[job["vary"]] = str(idx)  # a different corpus universe per worker
+    if replay:
+        try:
+            cfg.update(json.load(open(replay)).get("config", {}))
+        except Exception:
+            pass
+    job = dict(job, cfg=cfg)
     out = os.path.join(outdir, "w%03d.json" % idx)
     env.update({
         "VERIF_SUBSEED": str(subseed), "VERIF_BUDGET_MS": str(budget_ms), "VERIF_OUT": out,
